@@ -35,6 +35,8 @@ class OpResult:
     exc_msg: str = ""
     after_rebuild: str | None = None   # source.rebuild() after the call (same object)
     after_exc: str | None = None
+    exc_mro: list = field(default_factory=list)
+    parse_failed: bool = False         # the library refused to parse `before`
 
 
 def all_paths(tree: A.TNode, prefix=()):
@@ -171,7 +173,21 @@ class LiveDoc:
 
 
 def fresh_apply(text: str, op: Op) -> OpResult:
-    return LiveDoc(text).apply(op)
+    try:
+        live = LiveDoc(text)
+    except RecursionError as exc:
+        res = OpResult(op, text)
+        res.exc_type, res.exc_msg, res.exc_mro = "RecursionError", str(exc)[:160], ["RecursionError"]
+        res.parse_failed = True
+        return res
+    except Exception as exc:  # noqa: BLE001 - the library refusing to read the text is an event
+        res = OpResult(op, text)
+        res.exc_type = type(exc).__name__
+        res.exc_msg = "parse: " + str(exc)[:190]
+        res.exc_mro = [c.__name__ for c in type(exc).__mro__]
+        res.parse_failed = True
+        return res
+    return live.apply(op)
 
 
 def is_documented(res: OpResult) -> bool:
